@@ -92,7 +92,7 @@ BUILT = {
             'Trusts the analytic constructions in props/c06.py; virtual-image families are decided by back-extension on '
             'the surface record (wavefront/Strehl not evaluated for them).',
             'DESIGN.md §4 C06'),
-    'C07': ('metamorphic monitor: one relation per case (mirror symmetries, tilt about the centre of curvature, dummy surface, wavelength change, length scaling, scale_system) on paired traces',
+    'C07': ('metamorphic monitor: one relation per case (mirror symmetries, tilt about the centre of curvature, dummy surface, wavelength change, length scaling, scale_system, edited-after-use vs rebuilt) on paired traces',
             'Exploration: 350 (quick) / 24k (thorough) lens-relation pairs; per-surface ray records of the original and '
             'the transformed lens must agree at 1e-9 of the system scale after the stated transformation; scale_system is '
             'compared field by field with the lens rebuilt from the scaled spec. Held = no pair disagreed.',
